@@ -6,6 +6,7 @@ from runner import Part, run_sharded
 from streams import encode_stream
 import lc
 import k1_fuzz
+from core import ms_to_ns
 
 THEOREMS = 'IsoTp.Props.C06'
 RULE = ('(anomaly) clean streams of 2..20 frames with ONE anomaly injected at every frame position, 13 kinds: wrong sequence number, '
@@ -19,11 +20,11 @@ RULE = ('(anomaly) clean streams of 2..20 frames with ONE anomaly injected at ev
 ASSUME = []
 
 KINDS = ['wrong_seq', 'cf_idle', 'fc_idle', 'sf_interrupt', 'ff_interrupt', 'ff_too_long', 'undecodable', 'missing_escape',
-         'bad_ff_rxdl', 'changing_rxdl', 'changing_rxdl_up', 'wrong_seq_rxdl', 'timeout']
+         'bad_ff_rxdl', 'changing_rxdl', 'changing_rxdl_up', 'wrong_seq_rxdl', 'timeout', 'on_deadline']
 EXPECT = {'wrong_seq': 'WrongSequenceNumberError', 'cf_idle': 'UnexpectedConsecutiveFrameError', 'fc_idle': 'UnexpectedFlowControlError',
           'sf_interrupt': 'ReceptionInterruptedWithSingleFrameError', 'ff_interrupt': 'ReceptionInterruptedWithFirstFrameError',
           'ff_too_long': 'FrameTooLongError', 'undecodable': 'InvalidCanDataError', 'missing_escape': 'MissingEscapeSequenceError',
-          'bad_ff_rxdl': 'InvalidCanFdFirstFrameRXDL', 'changing_rxdl': 'ChangingInvalidRXDLError', 'changing_rxdl_up': 'ChangingInvalidRXDLError', 'wrong_seq_rxdl': 'WrongSequenceNumberError', 'timeout': 'ConsecutiveFrameTimeoutError'}
+          'bad_ff_rxdl': 'InvalidCanFdFirstFrameRXDL', 'changing_rxdl': 'ChangingInvalidRXDLError', 'changing_rxdl_up': 'ChangingInvalidRXDLError', 'wrong_seq_rxdl': 'WrongSequenceNumberError', 'timeout': 'ConsecutiveFrameTimeoutError', 'on_deadline': None}
 
 
 def anomaly_case(rng, kind, pos, inst, frames, payload, tx_dl):
@@ -77,8 +78,16 @@ def anomaly_case(rng, kind, pos, inst, frames, payload, tx_dl):
         ops.append(R(pfx + bytes([0x20 | sn]) + bytes(2)) if tx_dl > 8 else R(pfx + bytes([0x20 | sn]) + bytes(11 - len(pfx))))
     elif kind == 'timeout':
         ops.append([0, 'tick', p['rx_consecutive_frame_timeout'] * 10**6 + rng.choice([1, 1000, 10**6])])
+    elif kind == 'on_deadline':
+        # not an anomaly: the next Consecutive Frame is processed exactly rx_consecutive_frame_timeout after the previous one - the
+        # deadline is missed only when MORE than the timeout has elapsed; the reception goes on and the message is delivered
+        ops.append([0, 'tick', ms_to_ns(p['rx_consecutive_frame_timeout'])])
     step()
     mark2 = len(ops)
+    if kind == 'on_deadline':
+        for f in frames[pos:]:
+            ops.append(R(f)); step()
+        delivered_expected = [hx(payload)]
     return ops, mark, mark2, delivered_expected, new_payload
 
 
@@ -143,7 +152,11 @@ def oracle_anomaly(case, lines, insts):
     errs_at = [e[4:] for e in at if e.startswith('err:')]
     exp = EXPECT[kind]
     ok_special = False
-    if exp not in errs_at and not ok_special:
+    if exp is None:
+        allerrs = [e for l in lines for e in split_line(l)[0] if e.startswith('err:')]
+        if allerrs:
+            fails.append(('C06:error-without-anomaly', 'a Consecutive Frame processed exactly on the deadline (frame %d): %s' % (case['pos'], allerrs[:3])))
+    elif exp not in errs_at and not ok_special:
         fails.append(('C06:wrong-error-class:' + kind, 'anomaly %s at frame %d reported %s, expected %s' % (kind, case['pos'], errs_at, exp)))
     if kind == 'ff_too_long':
         ov = [e for e in at if e.startswith('tx:') and unhx(e.split(':')[6])[(1 if case['insts'][0]['txa']['mode'].startswith(('Extended', 'Mixed')) else 0)] == 0x32]
@@ -154,7 +167,7 @@ def oracle_anomaly(case, lines, insts):
     if kind in ('changing_rxdl', 'changing_rxdl_up', 'missing_escape', 'fc_idle', 'cf_idle') :
         # these are ignored frames: the interrupted message may still be pending, nothing of it may be delivered early
         pass
-    if case['payload'] in delivered:
+    if case['payload'] in delivered and kind != 'on_deadline':
         fails.append(('C06:aborted-message-delivered', 'the interrupted message was delivered'))
     for d in delivered:
         if d not in want:
